@@ -87,6 +87,30 @@ func (fx *FnExec) doCall(st *State, instr ssa.Instruction, c *ssa.CallCommon) []
 		argTypes = append(argTypes, a.Type())
 		argVals = append(argVals, a)
 	}
+	// caller-side call-site clauses (the caller's locals are visible)
+	if fx.contract != nil {
+		for _, cs := range fx.contract.Callsites {
+			if !strings.HasSuffix(key, cs.Callee) {
+				continue
+			}
+			env := fx.specEnv(st, fx.entry, nil, true)
+			env.pos = instr.Pos()
+			for i, n := range names {
+				if i < len(args) && n != "" && n != "_" {
+					env.vars["callee."+n] = SpecVal{T: args[i], Ty: argTypes[i]}
+				}
+			}
+			for i := range args {
+				env.vars[fmt.Sprintf("arg%d", i)] = SpecVal{T: args[i], Ty: argTypes[i]}
+			}
+			ord := fx.ordinal("callsite." + cs.Callee + "." + cs.Clause.Label)
+			suffix := ""
+			if ord > 1 {
+				suffix = fmt.Sprintf("@%d", ord)
+			}
+			fx.AssertClause(st, env, fmt.Sprintf("callsite.%s.%s%s", lastSeg(cs.Callee), cs.Clause.Label, suffix), "callsite", cs.Clause)
+		}
+	}
 	ct := fx.g.contracts[key]
 	resTypes := make([]types.Type, sig.Results().Len())
 	for i := range resTypes {
@@ -116,20 +140,23 @@ func (fx *FnExec) doCall(st *State, instr ssa.Instruction, c *ssa.CallCommon) []
 		env := &SpecEnv{fx: fx, st: st, old: pre, vars: map[string]SpecVal{}, pkg: fx.contractPkg(ct, callee, c)}
 		for i, n := range names {
 			if i < len(args) && n != "" && n != "_" {
-				env.vars[n] = SpecVal{T: args[i], Ty: argTypes[i]}
+				sv := SpecVal{T: args[i], Ty: argTypes[i]}
+				if mi, ok := argVals[i].(*ssa.MakeInterface); ok {
+					sv.Dyn = mi.X.Type()
+				}
+				env.vars[n] = sv
 			}
 		}
 		for i := range args {
 			env.vars[fmt.Sprintf("arg%d", i)] = SpecVal{T: args[i], Ty: argTypes[i]}
 		}
 		for _, cl := range ct.Requires {
-			phi := env.EvalBool(cl.Expr)
-			fx.Assert(st, fmt.Sprintf("call.%s.%s%s", key, cl.Label, suffix), "requires-callsite", cl.Src, phi)
+			fx.AssertClause(st, env, fmt.Sprintf("call.%s.%s%s", key, cl.Label, suffix), "requires-callsite", cl)
 		}
 		// frame
 		var ms *ModSet
 		if ct.Modifies != nil {
-			ms = ct.Modifies.ResolveIn(fx, env.pkg)
+			ms = ct.Modifies.ResolveAt(fx, env.pkg, names, argVals, args, argTypes)
 		} else if callee != nil && len(callee.Blocks) > 0 {
 			ms = fx.g.eff.of(callee)
 		} else {
@@ -433,16 +460,73 @@ func (m *ModSpec) Resolve(fx *FnExec) *ModSet {
 // ResolveIn turns the items of a modifies clause into heap keys. Items: `*` (everything),
 // `T.f` (field f of struct T), `elems(T)`, `box(T)`, `map(K,V)`, `global(name)`, or a raw key.
 func (m *ModSpec) ResolveIn(fx *FnExec, pkg *types.Package) *ModSet {
+	return m.ResolveAt(fx, pkg, nil, nil, nil, nil)
+}
+
+// ResolveAt resolves a modifies clause at a call site. `obj(p)` items denote the fields of the one
+// object parameter p points to; without call-site information they widen to whole field arrays.
+func (m *ModSpec) ResolveAt(fx *FnExec, pkg *types.Package, names []string, argVals []ssa.Value, args []Term, argTypes []types.Type) *ModSet {
 	ms := NewModSet()
 	env := &SpecEnv{fx: fx, pkg: pkg, vars: map[string]SpecVal{}}
 	for _, it := range m.Items {
 		switch {
 		case it == "*":
 			ms.All = true
+		case strings.HasPrefix(it, "obj(") && strings.HasSuffix(it, ")"):
+			pname := it[4 : len(it)-1]
+			idx := -1
+			for i, n := range names {
+				if n == pname {
+					idx = i
+				}
+			}
+			if idx < 0 || idx >= len(argVals) {
+				// no call-site information (static effect inference): unknown object of unknown type
+				ms.All = true
+				continue
+			}
+			t := argTypes[idx]
+			var ref Term
+			if args != nil {
+				ref = args[idx]
+			}
+			if mi, ok := argVals[idx].(*ssa.MakeInterface); ok {
+				t = mi.X.Type()
+				if args != nil {
+					ref = App("if.val", SInt, args[idx])
+				}
+			}
+			pt, ok := t.Underlying().(*types.Pointer)
+			if !ok || !isStruct(pt.Elem()) {
+				ms.All = true
+				continue
+			}
+			si := fx.tc.StructOf(pt.Elem())
+			for _, f := range si.Fields {
+				if args != nil {
+					ms.At = append(ms.At, AtMod{Key: fx.tc.FieldKey(si, f), Idx: ref})
+				} else {
+					ms.Add(fx.tc.FieldKey(si, f))
+				}
+			}
 		case strings.HasPrefix(it, "elems(") && strings.HasSuffix(it, ")"):
 			ms.Add(fx.tc.ElemKey(env.goType(it[6 : len(it)-1])))
 		case strings.HasPrefix(it, "box(") && strings.HasSuffix(it, ")"):
 			ms.Add(fx.tc.BoxKey(env.goType(it[4 : len(it)-1])))
+		case strings.HasPrefix(it, "ghost(") && strings.HasSuffix(it, ")"):
+			sf := fx.g.specFuncs[it[6:len(it)-1]]
+			if sf == nil || !sf.Ghost {
+				specFail("unknown ghost field %q in modifies", it)
+			}
+			genv := &SpecEnv{fx: fx, pkg: pkg, vars: map[string]SpecVal{}}
+			if sf.Pkg != "" {
+				if p := fx.g.typesPkg(sf.Pkg); p != nil {
+					genv.pkg = p
+				}
+			}
+			_, ks := genv.resolveType(sf.Params[0].Type)
+			_, vs := genv.resolveType(sf.Ret)
+			ms.Add(ghostKey(sf, ks, vs))
 		case strings.HasPrefix(it, "map(") && strings.HasSuffix(it, ")"):
 			parts := strings.SplitN(it[4:len(it)-1], ";", 2)
 			if len(parts) != 2 {
